@@ -73,6 +73,38 @@ pub fn run(rep: &mut Report, thorough: bool) {
             );
             rep.stage(&stage, "base frames x every pair of L2-L4 header fields x reduced value sets (two departures in one frame), monitored", items.len() as u64, t0);
         }
+        // two consecutive replies of DIFFERENT kinds whose lengths are made equal (an echo with n
+        // data bytes next to a SYN-ACK, a STUN response, a FIN|ACK, an HTTP answer; both orders,
+        // both IP versions): nothing computed for one reply may be reused for the next
+        {
+            let t0 = std::time::Instant::now();
+            let stage = format!("equal-length-neighbours-{}", tag);
+            let dims = [101u64, 4, 2, 2];
+            let opts = RunOpts::new(&stage).stateful().chunk(128);
+            engine::run(
+                &cfg,
+                product(&dims),
+                &opts,
+                |i| {
+                    let d = unrank(i, &dims);
+                    let v6 = d[3] == 1;
+                    let f = flow(v6, 40000, 80);
+                    let data: Vec<u8> = (0..d[0] as usize).map(|k| k as u8).collect();
+                    let echo = f.icmp_echo(7, 7, &data);
+                    let c = cookies.get(&key_of(&f)).copied().unwrap_or(0).wrapping_add(1);
+                    let other = match d[1] {
+                        0 => f.tcp(9, 0, F_SYN, b""),
+                        1 => f.udp(&stun_magic(&[], &ID12)),
+                        2 => f.tcp(9, 5, F_FIN | F_ACK, b""),
+                        _ => f.tcp(9, c, F_PSH | F_ACK, b"x"),
+                    };
+                    if d[2] == 0 { vec![Cmd::Frame(echo), Cmd::Frame(other)] } else { vec![Cmd::Frame(other), Cmd::Frame(echo)] }
+                },
+                |_it: &Item, _s: &mut Sink| {},
+                &mut rep.sink,
+            );
+            rep.stage(&stage, "echo with 0..100 data bytes next to {SYN, STUN datagram, FIN|ACK, first data segment} x both orders x {v4,v6} in one process, monitored (checksums of every reply)", product(&dims), t0);
+        }
         // every byte value at every header position of the eliciting base frames (Ethernet, ARP,
         // IP, ICMP, TCP, UDP headers byte by byte; application bytes are the application checks'
         // business), as is and with the checksums recomputed the way a sender would
